@@ -7,5 +7,5 @@ CONSTANTS
  Alphabet <- AlphaGaugeCas
  FineCas = TRUE
  Retry = FALSE
-INVARIANTS TypeOK IncOnlySum AbsMonotone AbsFloor NoLostUpdate SetExact ExactlyN NoValueDisables
+INVARIANTS TypeOK IncOnlySum AbsMonotone AbsFloor NoLostUpdate SetExact ExactlyN 
 CHECK_DEADLOCK FALSE
